@@ -3,7 +3,9 @@
 package actions
 
 import (
+	"context"
 	"net/http"
+	"time"
 
 	"github.com/google/uuid"
 )
@@ -32,4 +34,16 @@ func (v *VerifPushConn) Window() FlowControl {
 // nack queues for the next Receive.
 func (v *VerifPushConn) Queued() (fast, slow, nack int) {
 	return len(v.c.fastAckQueue), len(v.c.slowAckQueue), len(v.c.nackQueue)
+}
+
+// VerifDoAcksNacks runs the stream reader's settlement of one client message
+// (acks and nacks in one transaction), so that a harness can execute it -- and
+// inject storage faults into it -- without a live stream.
+func (ms *MessageStreamer) VerifDoAcksNacks(ctx context.Context, ackIDs, nackIDs []uuid.UUID) error {
+	return ms.doAcksNacks(ctx, ackIDs, nackIDs)
+}
+
+// VerifDoDelay likewise for the stream reader's deadline changes.
+func (ms *MessageStreamer) VerifDoDelay(ctx context.Context, ids []uuid.UUID, delay time.Duration) error {
+	return ms.doDelay(ctx, ids, delay)
 }
